@@ -16,7 +16,7 @@ sys.dont_write_bytecode = True
 
 from engine import ob as OB  # noqa: E402
 
-TIMEOUT = {"quick": 900, "thorough": 5400}
+TIMEOUT = {"quick": int(os.environ.get("VERIF_OB_TIMEOUT", 900)), "thorough": int(os.environ.get("VERIF_OB_TIMEOUT", 5400))}
 
 
 def _env(seed):
